@@ -319,7 +319,7 @@ def run_threads(case):
             codes.add(code)
     names = ["T%d" % i for i in range(len(programs))] + ["free"]
     baton = Baton(random.Random(case["baton_seed"]), names)
-    shared = Seam(record=False)
+    shared = Seam(record=False, cpu_cap=None)
     shared.monitors.append(lambda seam, loop, target, signal:
                            baton.switch(threading.current_thread().name))
     results = {}
